@@ -367,6 +367,11 @@ func recordParse(args []string) error {
 		}
 		emitParse(w, s)
 	}
+	// placeholder spellings: leading zeros, boundaries
+	for _, ph := range []string{"$1", "$01", "$007", "$08", "$09", "$010", "$0012", "$0100", "$00", "$000", "$2147483647", "$02147483647", "$2147483648", "$0x10", "$1e3", "$+1", "$-1", "$ 1"} {
+		emitParse(w, "a = "+ph)
+		emitParse(w, "a = "+ph+" & b = \"x\" ; c")
+	}
 	// very deep nesting: termination / no panic only (beyond what TLC's recursion validates)
 	for _, d := range []int{1000, 5000, 20000} {
 		s := strings.Repeat("(", d) + "a = \"x\"" + strings.Repeat(")", d)
@@ -470,6 +475,13 @@ func recordRoundTrip(args []string) error {
 			t = &vx.QTree{Op: []string{"and", "or"}[g.rng.Intn(2)]}
 			for k := 270 + g.rng.Intn(60); k > 0; k-- {
 				t.Es = append(t.Es, g.leaf(true))
+			}
+		}
+		if i%75 == 37 {
+			// a long exclusion list: one positive comparison and hundreds of negated ones
+			t = &vx.QTree{Op: "and", Es: []*vx.QTree{g.leaf(false)}}
+			for k := 140 + g.rng.Intn(60); k > 0; k-- {
+				t.Es = append(t.Es, &vx.QTree{Op: "not", E: g.leaf(false)})
 			}
 		}
 		gb := [][]int{}
